@@ -1,6 +1,8 @@
 -------------------------------- MODULE Poly ---------------------------------
 (* Polynomials in one variable with rational coefficients: sequences <<c0, c1, ..., cn>> (low order first). *)
 EXTENDS Rat
+RECURSIVE RSumSeq(_, _)
+RSumSeq(rs, n) == IF n = 0 THEN Zero ELSE RAdd(rs[n], RSumSeq(rs, n - 1))
 PZero == <<Zero>>
 POne  == <<One>>
 Coef(p, i) == IF i >= 1 /\ i <= Len(p) THEN p[i] ELSE Zero
@@ -10,17 +12,22 @@ PScale(r, p)  == [i \in 1..Len(p) |-> RMul(r, p[i])]
 PSub(p, q)    == PAdd(p, PScale(I(-1), q))
 \* p(s) * (a + b s)
 PMulLin(p, a, b) == [i \in 1..(Len(p) + 1) |-> RAdd(RMul(a, Coef(p, i)), RMul(b, Coef(p, i - 1)))]
+\* product of two polynomials
+PMul(p, q)    == [k \in 1..(Len(p) + Len(q) - 1) |->
+                    RSumSeq([i \in 1..Len(p) |-> IF k - i + 1 >= 1 /\ k - i + 1 <= Len(q) THEN RMul(p[i], q[k - i + 1]) ELSE Zero], Len(p))]
 PDer(p)       == IF Len(p) = 1 THEN PZero ELSE [i \in 1..(Len(p) - 1) |-> RMul(I(i), p[i + 1])]
 \* antiderivative with zero constant term
 PInt(p)       == [i \in 1..(Len(p) + 1) |-> IF i = 1 THEN Zero ELSE RDiv(p[i - 1], I(i - 1))]
 RECURSIVE Horner(_, _, _)
 Horner(p, x, i) == IF i > Len(p) THEN Zero ELSE RAdd(p[i], RMul(x, Horner(p, x, i + 1)))
 PEval(p, x)   == Horner(p, x, 1)
+\* p(x0 + s) as a polynomial in s (Horner with the linear factor x0 + s)
+RECURSIVE PShiftFrom(_, _, _)
+PShiftFrom(p, x0, i) == IF i > Len(p) THEN PZero ELSE PAdd(<<p[i]>>, PMulLin(PShiftFrom(p, x0, i + 1), x0, One))
+PShift(p, x0) == PShiftFrom(p, x0, 1)
 \* equality as polynomials (ignoring trailing zero coefficients)
 PEq(p, q)     == \A i \in 1..MaxI(Len(p), Len(q)) : Coef(p, i) = Coef(q, i)
 IsZeroP(p)    == \A i \in 1..Len(p) : p[i] = Zero
 RECURSIVE PSumSeq(_, _)
 PSumSeq(ps, n) == IF n = 0 THEN PZero ELSE PAdd(ps[n], PSumSeq(ps, n - 1))
-RECURSIVE RSumSeq(_, _)
-RSumSeq(rs, n) == IF n = 0 THEN Zero ELSE RAdd(rs[n], RSumSeq(rs, n - 1))
 =============================================================================
